@@ -20,7 +20,7 @@ THEOREMS = {"Artap.Props.C15": [
     "C15_exact_optima",               # exact optimum values where the documented coordinates are exact reals
     "C15_well_defined",               # denominators non-zero, sqrt arguments non-negative
     "C15_schwefel_every_dimension",   # Schwefel (full-precision alpha, fix F9): >= 0 on the box in every dimension
-    "C15_perm_binary64_range",        # Perm's real value fits binary64 on the whole box iff dimension <= 80 (finding F10)
+    "C15_perm_binary64_range",        # Perm's real value fits binary64 on the whole box for dimension <= 80, not at a corner for 81 (finding F10)
     "C15_prefix_code_refuted",        # the pre-fix formulas / declarations of F3, F4, F5 violate the clauses
 ]}
 
@@ -32,9 +32,12 @@ AXIOMS_OK = REAL_AXIOMS + [r"(Coq\.)?(Floats\.)?FloatAxioms\.\w+", r"(Coq\.)?(Fl
                            r"Rdefinitions\.\w+", r"Raxioms\.\w+", r"Rtrigo1\.\w+|PI_\w+"]
 TRUSTED = [
     "Coq 8.16.1 kernel; vm_compute inside the Interval tactic (no native_compute)",
-    "axioms of Coq's classical real numbers (ClassicalDedekindReals.sig_forall_dec, sig_not_dec, functional_extensionality_dep) "
-    "and, through the Interval library's primitive-float/int arithmetic, the standard library's Uint63 / PrimFloat "
-    "specification axioms (FloatAxioms.*, Uint63Axioms.*); all are declared by the standard library",
+    "axioms of Coq's classical real numbers and logic (ClassicalDedekindReals.sig_forall_dec, sig_not_dec, "
+    "functional_extensionality_dep; Classical_Prop.classic under C15_analytic_benchmarks, C15_interval_benchmarks, "
+    "C15_schwefel_every_dimension, C15_prefix_code_refuted) "
+    "and, through the Interval library's primitive-float/int arithmetic, the standard library's primitive 63-bit integers and floats "
+    "with their specification axioms (printed by Print Assumptions as PrimInt63.*, Uint63.*, PrimFloat.*, FloatAxioms.*; "
+    "C15_schwefel_every_dimension: the integer ones only); all are declared by the standard library",
     "Interval 4.x, Flocq, Coquelicot as installed (their proofs are checked by the same kernel)",
     "C15_perm_binary64_range: two integer comparisons by vm_compute on Z (no axioms beyond the reals)",
     "hand-written models Model/Bench.v tied to benchmark_functions.py / benchmark_robust.py by this correspondence run "
@@ -552,6 +555,7 @@ LEVEL_NOTE = ("All 23 classes fully proved, both clauses (C15_analytic_benchmark
               "C15_schwefel_every_dimension gives f >= 0 for every n, model of the code after fix F9), EqualityConstr n <= 10^6 (isclose slack "
               "1e-9). Michalewicz 5/10 and Schubert document no coordinates: the value clause is existential there. 'Returns one finite float' "
               "is sampled by the oracle only (the R model cannot overflow); for Perm it cannot hold beyond dimension 80: "
-              "C15_perm_binary64_range proves the real value fits binary64 on the whole box iff dimension <= 80 (open known finding F10: "
+              "C15_perm_binary64_range proves the real value fits binary64 on the whole box for every dimension <= 80 and exceeds it at a "
+              "corner of the 81-dimensional box (dimensions >= 82 are not stated; open known finding F10: "
               "Perm(dimension >= 81) raises OverflowError / returns inf at box points; the oracle excuses exactly the points whose exact "
               "rational value exceeds the largest binary64). Correspondence is sampled; theorems are unbounded in the box. See notes/C15.md.")
